@@ -505,8 +505,13 @@ func callSSA(i *interpreter, caller *frame, callpos token.Pos, fn *ssa.Function,
 		}
 		return ext(fr, args)
 	}
-	if i.formatOpaque && fn.Pkg != nil && fn.Pkg.Pkg.Path() == "strconv" {
-		if v, ok := opaqueFormat(fn, args); ok {
+	if fn.Pkg != nil && fn.Pkg.Pkg.Path() == "strconv" {
+		if i.formatOpaque {
+			if v, ok := opaqueFormat(fn, args); ok {
+				return v
+			}
+		}
+		if v, ok := i.symDecimal(fr, fn, args); ok {
 			return v
 		}
 	}
